@@ -210,7 +210,8 @@ def testWalk (e : Env) : List Loader → Stream → Bytes → Option Info → In
   | [], s, _, info => (eFormat, info, s)
   | l :: ls, s, buf, info =>
     let t := l.test s.rewind true
-    let buf' := overlayOpt t.title buf
+    -- `buf[0] = 0` before the probe, if the source has it (generated fact)
+    let buf' := overlayOpt t.title (if Gen.testBufInit = 2 then set0 buf else buf)
     if t.rc = 0 then
       if l.name = prowizardName then
         -- hio_seek(h, 0, SEEK_SET); pw_test_format(h, buf, 0, info);  (result ignored)
@@ -219,9 +220,13 @@ def testWalk (e : Env) : List Loader → Stream → Bytes → Option Info → In
         (0, info.map (fun i => { name := boundedCopy i.name buf', type := boundedCopy i.type l.name }), t.st)
     else testWalk e ls t.st buf' info
 
+/-- `*info->name = 0; *info->type = 0;` -/
+def resetInfo (info : Option Info) : Option Info :=
+  info.map fun i => { name := set0 i.name, type := set0 i.type }
+
 /-- `test_module(info, h)` -/
 def testModule (e : Env) (s : Stream) (info : Option Info) : Int × Option Info × Stream :=
-  testWalk e e.loaders s e.bufGarbage (info.map fun i => { name := set0 i.name, type := set0 i.type })
+  testWalk e e.loaders s (if Gen.testBufInit = 1 then set0 e.bufGarbage else e.bufGarbage) (resetInfo info)
 
 /-- what the recognition loop of `load_module` leaves: `test_result`, the selected loader
 with the outcome of its `loader()` call (`load_result` and the module), the handle -/
@@ -333,7 +338,9 @@ structure TestResult where
   deriving Repr, DecidableEq
 
 /-- `xmp_test_module`, `xmp_test_module_from_memory`, `…_from_file`, `…_from_callbacks` -/
-def xmpTest (e : Env) (decr : Stream → Decr) (src : Source) (info : Option Info) (w : World) : TestResult :=
+def xmpTest (e : Env) (decr : Stream → Decr) (src : Source) (info0 : Option Info) (w : World) : TestResult :=
+  -- the wrappers empty the strings before anything can fail, if the source has it (generated fact)
+  let info := if Gen.wrappersResetInfo then resetInfo info0 else info0
   match openSource src with
   | .error rc => { rc := rc, info := info, world := w }
   | .ok (h, s) =>
